@@ -65,7 +65,7 @@ CHECKS = {
     "C07": _c("Coq proof by induction over the tiles of the file (unbounded: all contents, sizes, configurations) + correspondence + stream oracle",
               "Proof (props/C07.v): for every file and configuration with effective segment length >= 1 the calls of an accepted put "
               "emit exactly [Metadata]; one File Data PDU per call tiling [0,size) ascending; [EOF(size, checksum)], all with one "
-              "header; length bounds for File Data / ACK (EOF when the packet can hold one: known finding F19 otherwise).", "6/C07"),
+              "header; File Data, EOF and ACK PDUs within max_packet_len (a packet that cannot hold an EOF PDU is refused at the start: fixed finding F19).", "6/C07"),
     "C08": _c("Coq proof (induction on the chunk loop; unbounded) + correspondence + retransmission oracle",
               "Proof (props/C08.v): a valid request yields exactly the tiles of [start,end) with the file's bytes; (0,0) the Metadata "
               "PDU; inverted / beyond-progress requests raise InvalidNakPdu and queue nothing; a NAK of valid requests yields their "
